@@ -449,7 +449,10 @@ def coarse_trace(run):
             o_ = run.outcome.get(e["r"], {})
             msg = str(o_.get("msg", ""))
             why = ""
-            if (o_.get("exc") == "LocalProtocolError" and "SEND_HEADERS in state" in msg) or (o_.get("exc") == "KeyError" and msg.strip("'").isdigit()):
+            # (requests are legal and the servers well behaved in these scenarios: a LocalProtocolError - h2
+            #  refusing SEND_HEADERS on the id, or StreamClosedError(<id>) - and a KeyError(<id>) can only come
+            #  from the h2 state machine having been raced)
+            if o_.get("exc") == "LocalProtocolError" or (o_.get("exc") == "KeyError" and msg.strip("'").isdigit()):
                 why = "dup-stream-id"
             evs.append({"e": "Ret", "r": rid[e["r"]], "out": "internal" if internal else ("ok" if e["out"] == "ok" else "exc"), "nsent": e.get("nsent", 0), "why": why})
         elif k == "End":
